@@ -967,26 +967,23 @@ Proof. intros H. unfold g_get. destruct (b <? a) eqn:E; [reflexivity|lia]. Qed.
 (* ================================================================== *)
 (* 10. merge_group                                                      *)
 
-Definition merge_items (gs : list group) (reset_index : bool) : list entry :=
-  if reset_index then renumber (flat_map g_entries gs) else flat_map g_entries gs.
-
-Lemma merge_group_inv gs ri rs im g' :
-  (2 <= length gs)%nat -> merge_group gs ri rs im = Some g' ->
+Lemma merge_group_gen_inv strict gs ri rs im g' :
+  (2 <= length gs)%nat -> merge_group_gen strict gs ri rs im = Some g' ->
   exists g1 rest, gs = g1 :: rest
     /\ (im = true \/ Forall (fun g => g_hastag g = g_hastag g1) rest)
     /\ (ri = true \/ disjoint_keys (g_keys g1) rest = true)
     /\ (rs = true \/ Forall (fun g => sup_same (g_sup g1) (g_sup g) = true) rest)
-    /\ (im = true \/ incr (map e_key (merge_items gs ri)))
+    /\ (strict = false \/ im = true \/ incr (map e_key (merge_items gs ri)))
     /\ regroup (merge_items gs ri) (if rs then None else Some (g_sup g1)) false (if im then false else g_hastag g1) = Some g'.
 Proof.
   intros Hl H. destruct gs as [|g1 [|g2 rest]]; simpl in Hl; try lia.
   exists g1, (g2 :: rest). split; [reflexivity|].
   set (gs := g1 :: g2 :: rest) in *. set (rs' := g2 :: rest) in *.
-  assert (E : merge_group gs ri rs im =
+  assert (E : merge_group_gen strict gs ri rs im =
     if (im || forallb (fun g => Bool.eqb (g_hastag g) (g_hastag g1)) rs')
        && (ri || disjoint_keys (g_keys g1) rs')
        && (rs || forallb (fun g => sup_same (g_sup g1) (g_sup g)) rs')
-    then if negb im && negb (incrb (map e_key (merge_items gs ri))) then None
+    then if strict && negb im && negb (incrb (map e_key (merge_items gs ri))) then None
          else regroup (merge_items gs ri) (if rs then None else Some (g_sup g1)) false (if im then false else g_hastag g1)
     else None) by reflexivity.
   rewrite E in H. clear E.
@@ -994,7 +991,7 @@ Proof.
             && (ri || disjoint_keys (g_keys g1) rs')
             && (rs || forallb (fun g => sup_same (g_sup g1) (g_sup g)) rs')) eqn:E; [|discriminate].
   apply andb_true_iff in E. destruct E as [E E3]. apply andb_true_iff in E. destruct E as [E1 E2].
-  destruct (negb im && negb (incrb (map e_key (merge_items gs ri)))) eqn:E4; [discriminate|].
+  destruct (strict && negb im && negb (incrb (map e_key (merge_items gs ri)))) eqn:E4; [discriminate|].
   split.
   { apply orb_true_iff in E1. destruct E1 as [E1|E1]; [left; exact E1|right].
     apply Forall_forall. intros g Hg. rewrite forallb_forall in E1. apply Bool.eqb_prop. apply E1. exact Hg. }
@@ -1003,7 +1000,32 @@ Proof.
   { apply orb_true_iff in E3. destruct E3 as [E3|E3]; [left; exact E3|right].
     apply Forall_forall. intros g Hg. rewrite forallb_forall in E3. apply E3. exact Hg. }
   split; [|exact H].
+  destruct strict; [|left; reflexivity]. right.
   destruct im; [left; reflexivity|right]. cbn [negb andb] in E4. apply negb_false_iff in E4. apply incrb_spec. exact E4.
+Qed.
+
+Lemma merge_group_inv gs ri rs im g' :
+  (2 <= length gs)%nat -> merge_group gs ri rs im = Some g' ->
+  exists g1 rest, gs = g1 :: rest
+    /\ (im = true \/ Forall (fun g => g_hastag g = g_hastag g1) rest)
+    /\ (ri = true \/ disjoint_keys (g_keys g1) rest = true)
+    /\ (rs = true \/ Forall (fun g => sup_same (g_sup g1) (g_sup g) = true) rest)
+    /\ regroup (merge_items gs ri) (if rs then None else Some (g_sup g1)) false (if im then false else g_hastag g1) = Some g'.
+Proof.
+  intros Hl H. destruct (merge_group_gen_inv false gs ri rs im g' Hl H) as (g1 & rest & E & H1 & H2 & H3 & _ & H5).
+  exists g1, rest. auto.
+Qed.
+
+(* whatever the original accepted, the repaired function returns the same group *)
+Lemma merge_group_orig_sub gs ri rs im g' :
+  merge_group_orig gs ri rs im = Some g' -> merge_group gs ri rs im = Some g'.
+Proof.
+  unfold merge_group_orig, merge_group, merge_group_gen. destruct gs as [|g1 [|g2 rest]]; try (intros H; exact H).
+  destruct ((im || forallb (fun g => Bool.eqb (g_hastag g) (g_hastag g1)) (g2 :: rest))
+            && (ri || disjoint_keys (g_keys g1) (g2 :: rest))
+            && (rs || forallb (fun g => sup_same (g_sup g1) (g_sup g)) (g2 :: rest))); [|intros H; exact H].
+  cbn [andb]. destruct (negb im && negb (incrb (map e_key (merge_items (g1 :: g2 :: rest) ri)))); [discriminate|].
+  intros H; exact H.
 Qed.
 
 Lemma Forall_flat_map {A B} (P : B -> Prop) (f : A -> list B) l :
@@ -1039,7 +1061,7 @@ Theorem merge_group_spec gs ri rs im g' :
   /\ (forall e', In e' (g_entries g') <-> exists e, In e (merge_items gs ri) /\ e' = restrict_entry (g_sup g') e)
   /\ (ri = true -> g_keys g' = map Z.of_nat (seq 0 (length (flat_map g_entries gs)))).
 Proof.
-  intros Hl HW H. destruct (merge_group_inv _ _ _ _ _ Hl H) as (g1 & rest & -> & _ & _ & _ & _ & Hr).
+  intros Hl HW H. destruct (merge_group_inv _ _ _ _ _ Hl H) as (g1 & rest & -> & _ & _ & _ & Hr).
   assert (Hwf0 : Forall (fun e => wf_member (e_mem e)) (flat_map g_entries (g1 :: rest))).
   { apply Forall_flat_map. eapply Forall_impl'; [|exact HW]. intros g (_ & _ & Hg). exact Hg. }
   assert (Hwf : Forall (fun e => wf_member (e_mem e)) (merge_items (g1 :: rest) ri)).
@@ -1507,18 +1529,20 @@ Proof.
 Qed.
 
 (* ================================================================== *)
-(* 14. merge_group as it is: with the metadata kept and the index not reset, groups whose keys do not
-   already increase along the concatenation cannot be merged                                        *)
+(* 14. merge_group before the repair: with the metadata kept and the index not reset, groups whose keys
+   do not already increase along the concatenation could not be merged; the repaired function merges
+   any groups with pairwise distinct keys                                                          *)
 
 Definition wit1 : group := ([(5, (0, ([0; 1000], [(0, 2000)])))], ([(0, 2000)], false)).
 Definition wit2 : group := ([(0, (0, ([500], [(0, 2000)])))], ([(0, 2000)], false)).
 
-Theorem merge_total_refuted :
+Theorem merge_orig_total_refuted :
   exists g1 g2, WFg g1 /\ Rg g1 /\ WFg g2 /\ Rg g2 /\ g_sup g1 = g_sup g2
     /\ (forall k, In k (g_keys g1) -> ~ In k (g_keys g2))
-    /\ merge_group [g1; g2] false false false = None
-    /\ merge_group [g2; g1] false false false <> None
-    /\ merge_group [g1; g2] false false true <> None.
+    /\ merge_group_orig [g1; g2] false false false = None
+    /\ merge_group_orig [g2; g1] false false false <> None
+    /\ merge_group_orig [g1; g2] false false true <> None
+    /\ merge_group [g1; g2] false false false <> None.
 Proof.
   exists wit1, wit2.
   assert (W1 : WFg wit1) by (unfold WFg, wit1; simpl; repeat split; try lia; repeat constructor; simpl; lia).
@@ -1527,28 +1551,27 @@ Proof.
   assert (R2 : Rg wit2) by (unfold Rg, wit2, within, normal; simpl; repeat constructor).
   split; [exact W1|]. split; [exact R1|]. split; [exact W2|]. split; [exact R2|].
   split; [reflexivity|]. split; [simpl; intros k [<-|[]] [H|[]]; discriminate|].
-  split; [vm_compute; reflexivity|]. split; vm_compute; discriminate.
+  split; [vm_compute; reflexivity|]. repeat split; vm_compute; discriminate.
 Qed.
 
-(* the merge is defined as soon as the concatenated keys increase (or the metadata is dropped, or the index reset) *)
+(* the repaired merge of two groups is defined as soon as the keys are distinct, the support shared
+   and the metadata columns equal *)
 Theorem merge_two_defined g1 g2 im :
-  WFg g1 -> WFg g2 -> g_hastag g1 = g_hastag g2 -> g_sup g1 = g_sup g2 ->
-  incr (g_keys g1 ++ g_keys g2) ->
+  WFg g1 -> WFg g2 -> (im = true \/ g_hastag g1 = g_hastag g2) -> g_sup g1 = g_sup g2 ->
+  NoDup (g_keys g1 ++ g_keys g2) ->
   exists g', merge_group [g1; g2] false false im = Some g'.
 Proof.
-  intros W1 W2 Ht Hs Hinc.
+  intros W1 W2 Ht Hs Hnd.
   assert (E : merge_group [g1; g2] false false im =
     if (im || forallb (fun g => Bool.eqb (g_hastag g) (g_hastag g1)) [g2])
        && (false || disjoint_keys (g_keys g1) [g2])
        && (false || forallb (fun g => sup_same (g_sup g1) (g_sup g)) [g2])
-    then if negb im && negb (incrb (map e_key (g_entries g1 ++ g_entries g2 ++ []))) then None
-         else regroup (g_entries g1 ++ g_entries g2 ++ []) (Some (g_sup g1)) false (if im then false else g_hastag g1)
+    then regroup (g_entries g1 ++ g_entries g2 ++ []) (Some (g_sup g1)) false (if im then false else g_hastag g1)
     else None) by reflexivity.
   rewrite E. clear E. rewrite app_nil_r.
   assert (Hk : map e_key (g_entries g1 ++ g_entries g2) = g_keys g1 ++ g_keys g2) by (rewrite map_app; reflexivity).
-  rewrite Hk. pose proof (incr_NoDup _ Hinc) as Hnd.
-  assert (E1 : forallb (fun g => Bool.eqb (g_hastag g) (g_hastag g1)) [g2] = true).
-  { simpl. rewrite Ht, Bool.eqb_reflx. reflexivity. }
+  assert (E1 : im || forallb (fun g => Bool.eqb (g_hastag g) (g_hastag g1)) [g2] = true).
+  { destruct Ht as [->|Ht]; [reflexivity|]. simpl. rewrite Ht, Bool.eqb_reflx. apply orb_true_r. }
   assert (E2 : disjoint_keys (g_keys g1) [g2] = true).
   { simpl. rewrite andb_true_r. apply negb_true_iff. destruct (existsb _ (g_keys g2)) eqn:Ex; [|reflexivity].
     apply existsb_exists in Ex. destruct Ex as (k & Hk2 & Hk1). apply existsb_eqb_In in Hk1.
@@ -1557,8 +1580,7 @@ Proof.
   assert (E3 : forallb (fun g => sup_same (g_sup g1) (g_sup g)) [g2] = true).
   { simpl. rewrite andb_true_r, <- Hs. unfold sup_same. apply orb_true_iff. left.
     clear. induction (g_sup g1) as [|[s e] r IH]; simpl; [reflexivity|]. rewrite !Z.eqb_refl, IH. reflexivity. }
-  rewrite E1, E2, E3, orb_true_r. cbn [orb andb].
-  apply incrb_spec in Hinc. rewrite Hinc. cbn [negb]. rewrite andb_false_r.
+  rewrite E1, E2, E3. cbn [orb andb].
   eexists. apply regroup_some; [|reflexivity]. rewrite Hk. exact Hnd.
 Qed.
 
